@@ -15,38 +15,38 @@ theorem htlc_all_translated : Irismod.Gen.PureHtlc.untranslated = [] := rfl
 
 theorem htlc_translated_pinned : Irismod.Gen.PureHtlc.translated =
     ["IncCurrent_supplyLimit_1(coin,limit_Limit)",
-     "IncCurrent_timeBasedSupplyLimit_1(coin,limit_TimeBasedLimit)",
-     "IncCurrent_supply_TimeLimitedCurrentSupply_1(supply_TimeLimitedCurrentSupply,coin)",
-     "IncCurrent_supply_CurrentSupply_1(supply_CurrentSupply,coin)",
      "IncCurrent_guard_1(supplyLimit,supply_CurrentSupply,coin)",
      "IncCurrent_cond_2(limit_TimeLimited)",
+     "IncCurrent_timeBasedSupplyLimit_1(coin,limit_TimeBasedLimit)",
      "IncCurrent_guard_3(timeBasedSupplyLimit,supply_TimeLimitedCurrentSupply,coin)",
-     "DecCurrent_supply_CurrentSupply_1(supply_CurrentSupply,coin)",
+     "IncCurrent_supply_TimeLimitedCurrentSupply_1(supply_TimeLimitedCurrentSupply,coin)",
+     "IncCurrent_supply_CurrentSupply_1(supply_CurrentSupply,coin)",
      "DecCurrent_guard_1(supply_CurrentSupply,coin)",
+     "DecCurrent_supply_CurrentSupply_1(supply_CurrentSupply,coin)",
      "IncIncoming_totalSupply_1(supply_CurrentSupply,supply_IncomingSupply)",
      "IncIncoming_supplyLimit_1(coin,limit_Limit)",
-     "IncIncoming_timeLimitedTotalSupply_1(supply_TimeLimitedCurrentSupply,supply_IncomingSupply)",
-     "IncIncoming_timeBasedSupplyLimit_1(coin,limit_TimeBasedLimit)",
-     "IncIncoming_supply_IncomingSupply_1(supply_IncomingSupply,coin)",
      "IncIncoming_guard_1(supplyLimit,totalSupply,coin)",
      "IncIncoming_cond_2(limit_TimeLimited)",
+     "IncIncoming_timeLimitedTotalSupply_1(supply_TimeLimitedCurrentSupply,supply_IncomingSupply)",
+     "IncIncoming_timeBasedSupplyLimit_1(coin,limit_TimeBasedLimit)",
      "IncIncoming_guard_3(timeBasedSupplyLimit,timeLimitedTotalSupply,coin)",
-     "DecIncoming_supply_IncomingSupply_1(supply_IncomingSupply,coin)",
+     "IncIncoming_supply_IncomingSupply_1(supply_IncomingSupply,coin)",
      "DecIncoming_guard_1(supply_IncomingSupply,coin)",
-     "IncOutgoing_supply_OutgoingSupply_1(supply_OutgoingSupply,coin)",
+     "DecIncoming_supply_IncomingSupply_1(supply_IncomingSupply,coin)",
      "IncOutgoing_guard_1(supply_CurrentSupply,supply_OutgoingSupply,coin)",
-     "DecOutgoing_supply_OutgoingSupply_1(supply_OutgoingSupply,coin)",
+     "IncOutgoing_supply_OutgoingSupply_1(supply_OutgoingSupply,coin)",
      "DecOutgoing_guard_1(supply_OutgoingSupply,coin)",
-     "createHTLT_call_IncrementIncomingAssetSupply_1_arg1(amount_0)",
-     "createHTLT_call_IncrementOutgoingAssetSupply_1_arg1(amount_0)",
+     "DecOutgoing_supply_OutgoingSupply_1(supply_OutgoingSupply,coin)",
      "createHTLT_guard_1(read_len_amount)",
      "createHTLT_guard_2(amount_0,asset_MinSwapAmount,asset_MaxSwapAmount)",
      "createHTLT_guard_3(timestamp,pastTimestampLimit,futureTimestampLimit)",
      "createHTLT_cond_4(read_sender_Equals_deputyAddress)",
      "createHTLT_guard_5(read_to_Equals_deputyAddress)",
      "createHTLT_guard_6(read_to_Equals_deputyAddress)",
+     "createHTLT_call_IncrementIncomingAssetSupply_1_arg1(amount_0)",
      "createHTLT_guard_7(timeLock,asset_MinBlockLock,asset_MaxBlockLock)",
      "createHTLT_guard_8(amount_0,asset_FixedFee,asset_MinSwapAmount)",
+     "createHTLT_call_IncrementOutgoingAssetSupply_1_arg1(amount_0)",
      "claimHTLT_call_DecrementIncomingAssetSupply_1_arg1(htlc_Amount_0)",
      "claimHTLT_call_IncrementCurrentAssetSupply_1_arg1(htlc_Amount_0)",
      "claimHTLT_call_DecrementOutgoingAssetSupply_1_arg1(htlc_Amount_0)",
@@ -54,9 +54,9 @@ theorem htlc_translated_pinned : Irismod.Gen.PureHtlc.translated =
      "refundHTLT_call_DecrementIncomingAssetSupply_1_arg1(amount_0)",
      "refundHTLT_call_DecrementOutgoingAssetSupply_1_arg1(amount_0)",
      "UpdateWindow_newTimeElapsed_1(supply_TimeElapsed,timeElapsed)",
+     "UpdateWindow_cond_1(asset_SupplyLimit_TimeLimited,newTimeElapsed,asset_SupplyLimit_TimePeriod)",
      "UpdateWindow_supply_TimeElapsed_1(newTimeElapsed)",
-     "UpdateWindow_supply_TimeElapsed_2()",
-     "UpdateWindow_cond_1(asset_SupplyLimit_TimeLimited,newTimeElapsed,asset_SupplyLimit_TimePeriod)"] := rfl
+     "UpdateWindow_supply_TimeElapsed_2()"] := rfl
 
 local macro "hsimp" "[" hs:ident,* "]" : tactic =>
   `(tactic| simp only [$[$hs:ident],*, decide_true, decide_false, if_true, if_false, obind_some, obind_none,
